@@ -13,10 +13,24 @@ theorem astimezone_spec (x y : ADT) (b : Int) (h : astimezone x b = .ok y) :
   simp only [bind, Except.bind, pure, Except.pure] at h
   split at h
   · cases h
-  · rename_i t ht
-    injection h with h; subst h
-    have := addSeconds_spec _ _ _ ht
-    exact ⟨rfl, this.1, this.2⟩
+  · rename_i u hu
+    split at h
+    · cases h
+    · rename_i t ht
+      injection h with h; subst h
+      have h1 := addSeconds_spec _ _ _ hu
+      have h2 := addSeconds_spec _ _ _ ht
+      refine ⟨rfl, ?_, h2.2⟩
+      simp only
+      rw [h2.1, h1.1]
+      generalize x.off.getD 0 = a
+      generalize x.t.micros = m
+      have e : (b - a) * 1000000 = b * 1000000 - a * 1000000 := Int.sub_mul b a 1000000
+      have e2 : (-a) * 1000000 = -(a * 1000000) := Int.neg_mul a 1000000
+      rw [e, e2]
+      generalize b * 1000000 = B
+      generalize a * 1000000 = A
+      omega
 
 theorem astimezone_instant (x y : ADT) (b : Int) (h : astimezone x b = .ok y) : y.instant = x.instant := by
   obtain ⟨h1, h2, _⟩ := astimezone_spec x y b h
